@@ -4,6 +4,7 @@ import (
 	"context"
 	"fmt"
 	"net/http"
+	"strings"
 
 	"github.com/thushan/olla/internal/adapter/registry"
 	"github.com/thushan/olla/internal/core/constants"
@@ -78,7 +79,14 @@ func (a *Application) providerProxyHandler(w http.ResponseWriter, r *http.Reques
 
 	// The proxy needs to know which prefix to strip before forwarding.
 	// This mimics the behaviour of the main router for consistency.
-	providerPrefix := getProviderPrefix(providerType)
+	// Use the provider segment as the client spelt it: aliases such as /olla/lmstudio/ or
+	// /olla/lm_studio/ normalise to one provider type, but it is the spelt prefix that has
+	// to come off the path.
+	spelt := strings.TrimPrefix(r.URL.Path, constants.DefaultOllaProxyPathPrefix)
+	if i := strings.Index(spelt, constants.DefaultPathPrefix); i >= 0 {
+		spelt = spelt[:i]
+	}
+	providerPrefix := getProviderPrefix(spelt)
 	ctx = context.WithValue(ctx, constants.ContextRoutePrefixKey, providerPrefix)
 	r = r.WithContext(ctx)
 
